@@ -161,7 +161,9 @@ func Listing(is []Ins) string {
 
 var Regs = []string{"r0", "r1", "r2", "r3"}
 var AddrRegs = []string{"a0", "a1"}
-var Mems = []string{"m0", "m1"}
+// the second memory space is deliberately named like a register: registers and memory
+// spaces are separate namespaces
+var Mems = []string{"m0", "r1"}
 
 func c8(v uint64) expr.Const { return expr.NewConstUint(v, 8) }
 func rl(k string) expr.Expr  { return expr.NewRegLoad(expr.NewKey(k), 8) }
